@@ -33,4 +33,8 @@ def run(chk):
 
 
 def replay(chk, data):
+    rp = data.get('replay') if isinstance(data, dict) else None
+    if isinstance(rp, dict) and 'schedule' in rp and 'mode' in rp:     # a scheduled run of the asyncio part
+        from props import c04async
+        return c04async.replay(chk, data)
     return srvprop.replay(chk, data, 'c04')
